@@ -67,6 +67,42 @@ func (c06) Generate(r *rand.Rand, t string) []*Case {
 				setup = append(setup, hist.Op{Kind: "importname", F: 0, A: paths[j], B: pick(r, namePool)})
 			}
 		}
+		// the File's OWN path is also named by hints: declared a dot-import with
+		// ImportAlias(local, "."), and / or given an ordinary ImportName / ImportAlias hint, in
+		// either order, at random positions among the other hints.  Whatever the hints say,
+		// a reference to the own path is a bare name and the own path is never imported.
+		localDot, localHint := false, false
+		if local != "" && r.Intn(3) == 0 {
+			var ops hist.History
+			switch r.Intn(4) {
+			case 0: // dot only
+				ops = hist.History{{Kind: "importalias", F: 0, A: local, B: "."}}
+			case 1: // ordinary hint, then dot (the dot is the final hint)
+				ops = hist.History{{Kind: pick(r, []string{"importname", "importalias"}), F: 0, A: local, B: pick(r, namePool)}, {Kind: "importalias", F: 0, A: local, B: "."}}
+			case 2: // dot, then an ordinary hint (the ordinary hint is the final one)
+				ops = hist.History{{Kind: "importalias", F: 0, A: local, B: "."}, {Kind: pick(r, []string{"importname", "importalias"}), F: 0, A: local, B: pick(r, namePool)}}
+			default: // ordinary hint only
+				ops = hist.History{{Kind: pick(r, []string{"importname", "importalias"}), F: 0, A: local, B: pick(r, namePool)}}
+			}
+			first := 1 // position 0 is the constructor
+			for _, op := range setup[1:] {
+				if op.Kind != "prefix" {
+					break
+				}
+				first++
+			}
+			at := first
+			for _, op := range ops {
+				at = at + r.Intn(len(setup)-at+1)
+				setup = append(setup[:at:at], append(hist.History{op}, setup[at:]...)...)
+				at++
+				if op.B == "." && op.Kind == "importalias" {
+					localDot = true
+				} else {
+					localHint = true
+				}
+			}
+		}
 		var refs []int
 		for j := range paths {
 			for k := 0; k < 1+r.Intn(2); k++ {
@@ -76,8 +112,14 @@ func (c06) Generate(r *rand.Rand, t string) []*Case {
 		r.Shuffle(len(refs), func(a, b int) { refs[a], refs[b] = refs[b], refs[a] })
 		rc, h := BuildRefCase(r, paths, setup, local, refs, nil)
 		h = append(h, hist.Op{Kind: "noformat", F: 0, Flag: r.Intn(2) == 0}, hist.Op{Kind: "render", F: 0}, hist.Op{Kind: "imports", F: 0})
-		out = append(out, &Case{Hist: h, Stream: "local+dot", NonTrivial: true, Meta: map[string]interface{}{"rc": rc, "ndot": ndot},
-			Tags: []string{fmt.Sprintf("dots=%d", ndot), fmt.Sprintf("local=%v", local != "")}})
+		tags := []string{fmt.Sprintf("dots=%d", ndot), fmt.Sprintf("local=%v", local != "")}
+		if localDot {
+			tags = append(tags, "local+dot-hint")
+		}
+		if localHint {
+			tags = append(tags, "local+ordinary-hint")
+		}
+		out = append(out, &Case{Hist: h, Stream: "local+dot", NonTrivial: true, Meta: map[string]interface{}{"rc": rc, "ndot": ndot}, Tags: tags})
 	}
 	return out
 }
@@ -87,7 +129,15 @@ func (c06) Regressions() []*Case {
 	setup := hist.History{{Kind: "newfile", F: 0, A: "p"}, {Kind: "prefix", F: 0, A: "pkg"}, {Kind: "importalias", F: 0, A: "a.b/d", B: "."}}
 	rc, h := BuildRefCase(r, []string{"a.b/d"}, setup, "", []int{0}, nil)
 	h = append(h, hist.Op{Kind: "render", F: 0}, hist.Op{Kind: "imports", F: 0})
-	return []*Case{{Name: "prefix-on-dot-import", Hist: h, Stream: "regression", NonTrivial: true, Meta: map[string]interface{}{"rc": rc, "ndot": 1}}}
+	// the own path declared a dot-import (and given an ordinary hint) and referenced: bare
+	// name, no import of the own path
+	setup2 := hist.History{{Kind: "newfilepath", F: 0, A: "a.b/c"}, {Kind: "importname", F: 0, A: "a.b/c", B: "foo"}, {Kind: "importalias", F: 0, A: "a.b/c", B: "."}}
+	rc2, h2 := BuildRefCase(r, []string{"a.b/c", "x.y/c"}, setup2, "a.b/c", []int{0, 1, 0}, nil)
+	h2 = append(h2, hist.Op{Kind: "render", F: 0}, hist.Op{Kind: "imports", F: 0})
+	return []*Case{
+		{Name: "prefix-on-dot-import", Hist: h, Stream: "regression", NonTrivial: true, Meta: map[string]interface{}{"rc": rc, "ndot": 1}},
+		{Name: "local-path-declared-dot-import", Hist: h2, Stream: "regression", NonTrivial: true, Tags: []string{"local+dot-hint"}, Meta: map[string]interface{}{"rc": rc2, "ndot": 0}},
+	}
 }
 
 func (c06) Compare(c *Case, exp, got []hist.Obs) string { return CompareAll(exp, got) }
@@ -113,6 +163,9 @@ func (c06) Oracle(c *Case, got []hist.Obs) string {
 		}
 	}
 	for p, h := range rc.Hints {
+		if p == rc.Local && rc.Local != "" {
+			continue // the own path is never imported, not even when it is declared a dot-import (Resolve rejects such an import)
+		}
 		if h == [2]string{".", "alias"} {
 			if _, used := qm[p]; used && !strings.Contains(o.Out, ". \""+p+"\"") && !strings.Contains(o.Out, ". "+fmt.Sprintf("%q", p)) {
 				return fmt.Sprintf("dot-import of %q missing from the import block", p)
